@@ -45,7 +45,8 @@ def rand_atom(rng):
         return rng.choice([0, 1, -1, 42, 2147483647, -2147483648, 65536, rng.randint(-10 ** 6, 10 ** 6)])
     if c < 0.5:
         return ("rat", rng.choice(["1/2", "-1/2", "3/4", "6/4", "10/5", "-7/3", "0/5", "2147483647/2", "1/65536", "-2147483648/3", "-2147483648/2", "-2147483648/1",
-                                   "2147483647/2147483646", "-2147483647/2", "1/2147483647", "+3/4", "-2147483648/2147483647", "2147483646/2147483647"]))
+                                   "2147483647/2147483646", "-2147483647/2", "1/2147483647", "+3/4", "-2147483648/2147483647", "2147483646/2147483647",
+                                   "2/4294967294", "4/4294967292", "-6/4294967295", "2147483647/4294967294", "3/3000000000"]))
     if c < 0.62:
         return ("dec", rng.choice(["1.5", "-2.5", "0.1", "1e5", "1.5e-3", "-1e10", "1.", "0.", "+.5", "-.25", "12.25e+2", "3.4e38", "1e-45", "100.0", "1e0"]))
     if c < 0.7:
